@@ -202,6 +202,11 @@ func (w *World) lookupType(spec *FuncSpec, name string) types.Type {
 			return o.Type()
 		}
 	}
+	if p, ok := w.pkgs[spec.HomePkg]; ok && spec.HomePkg != "" {
+		if o := p.Types.Scope().Lookup(name); o != nil {
+			return o.Type()
+		}
+	}
 	return nil
 }
 
@@ -299,8 +304,8 @@ func sweepSpecs(w *World, sw *Sweep, specs *Specs) []*FuncSpec {
 		}
 		var under []string
 		if sp, ok := specs.Funcs[key]; ok {
-			if (hasProp(sp.Props, sw.Props[0]) && !sw.Immutable) || sp.Trusted {
-				continue // explicit contract wins
+			if (hasProp(sp.Props, sw.Props[0]) && !sw.Immutable) || (sp.Trusted && !sw.Lockset && !sw.Immutable) {
+				continue // explicit contract wins (a trusted body is still swept for the lock and immutability disciplines)
 			}
 			if sp.ImmutChk && sw.Immutable {
 				continue
